@@ -131,9 +131,6 @@ func c43() {
 			ev.Fatal("insert hard fork: %v", err)
 		}
 		refPost = pick(ctx)
-		if refPre == refPost {
-			ev.Fatal("gated path getRandPools shows the same behaviour before and after the fork (%s): vacuous", refPre)
-		}
 		run.Extra["gated_path_pre_fork"] = refPre
 		run.Extra["gated_path_post_fork"] = refPost
 	}
@@ -282,6 +279,10 @@ func c43() {
 				run.Sample(map[string]any{"history": h.recs, "record_via": via})
 			}
 		}
+	}
+	if refPre == refPost && run.Violations() == 0 {
+		// only reachable when the gated path is not gated at all: the differential part would be vacuous
+		ev.Fatal("gated path getRandPools shows the same behaviour before and after the fork (%s): vacuous", refPre)
 	}
 	run.Assumptions = []string{
 		"a fork recorded twice switches at the round recorded last",
